@@ -220,9 +220,23 @@ class Run:
             elif recipe.get("density_type") == "np32":
                 import numpy as np
                 dens = np.int32(dens)
-            self.sp = SolverParameters(eps=params["eps"], r=params["r"], itersLimit=params["itersLimit"],
-                                       evolventDensity=dens, refineSolution=refine, **extra)
+            if params.get("assign"):
+                # the parameters object is built first (defaults or other values) and the fields are assigned
+                # afterwards, before the Solver is built - the usual way to tweak a shared parameter set
+                self.sp = SolverParameters(eps=0.5, r=7.25, itersLimit=17, evolventDensity=dens, **extra)
+                self.sp.r = params["r"]
+                self.sp.eps = params["eps"]
+                self.sp.itersLimit = params["itersLimit"]
+                self.sp.refineSolution = refine
+            else:
+                self.sp = SolverParameters(eps=params["eps"], r=params["r"], itersLimit=params["itersLimit"],
+                                           evolventDensity=dens, refineSolution=refine, **extra)
+            if params.get("rebound"):
+                self._rebound = True
             self.solver = Solver(self.problem, parameters=self.sp)
+            if getattr(self, "_rebound", False):
+                # the box is handed to the solver's evolvent once more through the public SetBounds: a no-op
+                self.solver.evolvent.SetBounds([float(v) for v in recipe["lower"]], [float(v) for v in recipe["upper"]])
         self.rec = None
         if record:
             self.rec = make_recorder(self.problem.clock)
